@@ -34,6 +34,11 @@ func (k msgServer) CreateDappProposal(goCtx context.Context, msg *types.MsgCreat
 		return nil, types.ErrDappDoesNotExist
 	}
 
+	// the pool fee is a fraction of every swap / redemption: a negative one would pay the fee TO the trader
+	if !msg.Dapp.PoolFee.IsNil() && (msg.Dapp.PoolFee.IsNegative() || msg.Dapp.PoolFee.GT(sdk.OneDec())) {
+		return nil, types.ErrInvalidDappPoolFee
+	}
+
 	// the bond-free creation permission skips the minimum, it must not admit a negative bond
 	if msg.Bond.Amount.IsNil() || msg.Bond.Amount.IsNegative() {
 		return nil, types.ErrLowAmountToCreateDappProposal
